@@ -110,6 +110,31 @@ func gAddL(ld plog.Logs, s string) plog.Logs {
 
 var gT = component.MustNewType("vv")
 
+// gDirs: the (source signal, destination signal) pairs the connector factory supports; nil = all four. A connector may be
+// asymmetric (traces->logs without logs->traces), and "no supported counterpart pipeline" is judged per direction.
+var gDirs map[[2]string]bool
+
+func gDirOK(from, to string) bool { return gDirs == nil || gDirs[[2]string{from, to}] }
+
+var gDirSets = [][][2]string{
+	nil, // all
+	{{"traces", "logs"}},
+	{{"logs", "traces"}},
+	{{"traces", "traces"}, {"traces", "logs"}},
+	{{"logs", "logs"}, {"logs", "traces"}},
+	{{"traces", "traces"}, {"logs", "logs"}},
+}
+
+func gSetDirs(i int) {
+	gDirs = nil
+	if i > 0 {
+		gDirs = map[[2]string]bool{}
+		for _, d := range gDirSets[i] {
+			gDirs[d] = true
+		}
+	}
+}
+
 type gTC struct {
 	*gComp
 	consumer.ConsumeTracesFunc
@@ -153,23 +178,32 @@ func gFactories() (map[component.Type]receiver.Factory, map[component.Type]proce
 			k := "exp/logs/" + s.ID.String()
 			return gLC{gMk(k), func(_ context.Context, ld plog.Logs) error { gW.got[k] = append(gW.got[k], gStampL(ld)); return nil }}, nil
 		}, st))
-	cf := connector.NewFactory(gT, cfg,
-		connector.WithTracesToTraces(func(_ context.Context, s connector.Settings, _ component.Config, n consumer.Traces) (connector.Traces, error) {
+	var copts []connector.FactoryOption
+	if gDirOK("traces", "traces") {
+		copts = append(copts, connector.WithTracesToTraces(func(_ context.Context, s connector.Settings, _ component.Config, n consumer.Traces) (connector.Traces, error) {
 			return gTC{gMk("conn/traces>traces/" + s.ID.String()), func(ctx context.Context, td ptrace.Traces) error { return n.ConsumeTraces(ctx, gAddT(td, ">c")) }}, nil
-		}, st),
-		connector.WithTracesToLogs(func(_ context.Context, s connector.Settings, _ component.Config, n consumer.Logs) (connector.Traces, error) {
+		}, st))
+	}
+	if gDirOK("traces", "logs") {
+		copts = append(copts, connector.WithTracesToLogs(func(_ context.Context, s connector.Settings, _ component.Config, n consumer.Logs) (connector.Traces, error) {
 			return gTC{gMk("conn/traces>logs/" + s.ID.String()), func(ctx context.Context, td ptrace.Traces) error {
 				return n.ConsumeLogs(ctx, gAddL(plog.NewLogs(), gStampT(td)+">c"))
 			}}, nil
-		}, st),
-		connector.WithLogsToTraces(func(_ context.Context, s connector.Settings, _ component.Config, n consumer.Traces) (connector.Logs, error) {
+		}, st))
+	}
+	if gDirOK("logs", "traces") {
+		copts = append(copts, connector.WithLogsToTraces(func(_ context.Context, s connector.Settings, _ component.Config, n consumer.Traces) (connector.Logs, error) {
 			return gLC{gMk("conn/logs>traces/" + s.ID.String()), func(ctx context.Context, ld plog.Logs) error {
 				return n.ConsumeTraces(ctx, gAddT(ptrace.NewTraces(), gStampL(ld)+">c"))
 			}}, nil
-		}, st),
-		connector.WithLogsToLogs(func(_ context.Context, s connector.Settings, _ component.Config, n consumer.Logs) (connector.Logs, error) {
+		}, st))
+	}
+	if gDirOK("logs", "logs") {
+		copts = append(copts, connector.WithLogsToLogs(func(_ context.Context, s connector.Settings, _ component.Config, n consumer.Logs) (connector.Logs, error) {
 			return gLC{gMk("conn/logs>logs/" + s.ID.String()), func(ctx context.Context, ld plog.Logs) error { return n.ConsumeLogs(ctx, gAddL(ld, ">c")) }}, nil
 		}, st))
+	}
+	cf := connector.NewFactory(gT, cfg, copts...)
 	return map[component.Type]receiver.Factory{gT: rf}, map[component.Type]processor.Factory{gT: pf}, map[component.Type]exporter.Factory{gT: ef}, map[component.Type]connector.Factory{gT: cf}
 }
 
@@ -291,12 +325,33 @@ func gReference(cfg gCfg, mode string) (expectErr string, want map[string][]stri
 			asRecv = append(asRecv, i)
 		}
 	}
-	if (len(asExp) == 0) != (len(asRecv) == 0) {
-		return "connector", nil, nil, nil // used only as exporter or only as receiver: no supported counterpart pipeline
+	sigOf := func(i int) string { return gPids[i].Signal().String() }
+	// every use as exporter needs a pipeline that receives from it in a supported direction, and vice versa
+	for _, i := range asExp {
+		ok := false
+		for _, j := range asRecv {
+			ok = ok || gDirOK(sigOf(i), sigOf(j))
+		}
+		if !ok {
+			return "connector", nil, nil, nil
+		}
+	}
+	for _, j := range asRecv {
+		ok := false
+		for _, i := range asExp {
+			ok = ok || gDirOK(sigOf(i), sigOf(j))
+		}
+		if !ok {
+			return "connector", nil, nil, nil
+		}
 	}
 	adj := map[int][]int{}
 	for _, i := range asExp {
-		adj[i] = append(adj[i], asRecv...)
+		for _, j := range asRecv {
+			if gDirOK(sigOf(i), sigOf(j)) {
+				adj[i] = append(adj[i], j)
+			}
+		}
 	}
 	state := map[int]int{}
 	var cyc func(i int) bool
@@ -330,7 +385,7 @@ func gReference(cfg gCfg, mode string) (expectErr string, want map[string][]stri
 			want["exp/"+sig+"/vv/e2"] = append(want["exp/"+sig+"/vv/e2"], stamp)
 		}
 		if p.ExpC {
-			for _, j := range asRecv {
+			for _, j := range adj[i] {
 				walk(j, stamp+">c")
 			}
 		}
@@ -363,7 +418,7 @@ func gReference(cfg gCfg, mode string) (expectErr string, want map[string][]stri
 			downs = append(downs, "exp/"+sig+"/vv/e2")
 		}
 		if p.ExpC {
-			for _, j := range asRecv {
+			for _, j := range adj[i] {
 				k := "conn/" + sig + ">" + gPids[j].Signal().String() + "/vv/c"
 				census[k] = 1
 				downs = append(downs, k)
@@ -371,7 +426,9 @@ func gReference(cfg gCfg, mode string) (expectErr string, want map[string][]stri
 		}
 		if p.RecvC {
 			for _, j := range asExp {
-				ups = append(ups, "conn/"+gPids[j].Signal().String()+">"+sig+"/vv/c")
+				if gDirOK(sigOf(j), sig) {
+					ups = append(ups, "conn/"+gPids[j].Signal().String()+">"+sig+"/vv/c")
+				}
 			}
 		}
 		chain := []string{}
@@ -401,6 +458,7 @@ func gReference(cfg gCfg, mode string) (expectErr string, want map[string][]stri
 }
 
 type gCase struct {
+	Dirs      int      `json:"connector_direction_set,omitempty"` // index into gDirSets (0 = all four directions)
 	Mode      string   `json:"mode"`
 	Cfg       gCfg     `json:"config"`
 	FailStart []string `json:"fail_start,omitempty"`
@@ -600,6 +658,7 @@ func TestVerif(t *testing.T) {
 			t.Fatal(err)
 		}
 		var sig, what string
+		gSetDirs(rf.Replay.Dirs)
 		if rf.Replay.Mode == "C10" {
 			sig, what = gLifecycle(rf.Replay.Cfg, rf.Replay.FailStart, rf.Replay.FailStop)
 		} else {
@@ -615,9 +674,26 @@ func TestVerif(t *testing.T) {
 	ctx.R.Extra["pipeline_options"] = len(opts)
 	var n int64
 	pairs := ctx.Param("pairs", 0) == 1
-	for _, a := range opts {
-		for _, b := range opts {
-			for _, c := range opts {
+	// asymmetric connector factories (C09 only): the topologies without processors (processors do not interact with the
+	// direction filter) under every direction set of gDirSets
+	var noProc []gPipe
+	for _, o := range opts {
+		if len(o.Procs) == 0 {
+			noProc = append(noProc, o)
+		}
+	}
+	for di := range gDirSets {
+	if di > 0 && prop != "C09" {
+		break
+	}
+	gSetDirs(di)
+	dopts := opts
+	if di > 0 {
+		dopts = noProc
+	}
+	for _, a := range dopts {
+		for _, b := range dopts {
+			for _, c := range dopts {
 				cfg := gCfg{a, b, c}
 				if !a.Present && !b.Present && !c.Present {
 					continue
@@ -633,9 +709,9 @@ func TestVerif(t *testing.T) {
 					ctx.R.Evals++
 					ctx.R.Trans++
 					sig, what := gRouting(cfg)
-					ctx.Nontrivial(vr.Hash(fmt.Sprint(cfg)))
+					ctx.Nontrivial(vr.Hash(di, fmt.Sprint(cfg)))
 					if sig != "" {
-						ctx.Violate(sig, what, gCase{Mode: "C09", Cfg: cfg})
+						ctx.Violate(sig, what, gCase{Mode: "C09", Cfg: cfg, Dirs: di})
 						ctx.Outcome(strings.SplitN(sig, ":", 2)[0])
 					} else {
 						ctx.R.Traces++
@@ -691,5 +767,7 @@ func TestVerif(t *testing.T) {
 			}
 		}
 	}
+	}
+	gSetDirs(0)
 	ctx.R.States = ctx.R.Evals
 }
